@@ -35,6 +35,14 @@ def generate(repo):
         got = seg(src, find_assign(tree, nm))
         if ''.join(got.split()) != ''.join(want.split()):
             raise ExtractError('%s is no longer %s' % (nm, want))
+    # the way the table is turned into relative_atomic_masses must be the bracket rule the model assumes
+    want_fn = ("def _get_relative_atomic_masses():\n    for mass in tuple((element[2] for element in _elements)):\n"
+               "        yield (float(mass[1:-1]) if str(mass).startswith('[') else float(mass))")
+    got_fn = ast.unparse(find_def(tree, '_get_relative_atomic_masses'))
+    if got_fn != want_fn:
+        raise ExtractError('_get_relative_atomic_masses is no longer the bracket rule the model assumes: ' + got_fn[:200])
+    if ast.unparse(find_assign(tree, 'relative_atomic_masses')) != 'tuple(_get_relative_atomic_masses())':
+        raise ExtractError('relative_atomic_masses is no longer tuple(_get_relative_atomic_masses())')
     # electron mass literal inside mass_from_composition
     f = find_def(tree, 'mass_from_composition')
     consts = [n for n in ast.walk(f) if isinstance(n, ast.Constant) and isinstance(n.value, float) and n.value != 0.0]
